@@ -8,6 +8,10 @@
     Proofs/C11CutOff.lean    pages cut off at any byte are accepted as cut-off pages of their own response; the monitor at
                              EVERY position of EVERY history of form_post responses with faults
     Proofs/C11Par.lean       error responses in flight at the same time: every schedule, error objects created per call (regenerated facts)
+    Proofs/C11ErrVal.lean    the regenerated statement lists of AuthRequestError / TryErrorRedirect read for the VALUE (imports no translated
+                             function: fails by name when a helper touches the description on the way to the encoder)
+    Proofs/C11Len.lean       the description / code handed to the encoder are DefaultToServerError's, untouched (regenerated statement lists
+                             of AuthRequestError / TryErrorRedirect read for the VALUE: only State / SessionState are assigned)
     Proofs/C11Modes.lean     every response mode string x response type in one statement
     Proofs/C11FormPost.lean  sequences of form_post responses with write faults: the regenerated buffer handling of
                              AuthResponseFormPost leaves nothing behind, every delivered body is a function of its own request
@@ -18,3 +22,5 @@ import OidcModel.Proofs.C11FormPost
 import OidcModel.Proofs.C11CutOff
 import OidcModel.Proofs.C11Modes
 import OidcModel.Proofs.C11Par
+import OidcModel.Proofs.C11ErrVal
+import OidcModel.Proofs.C11Len
